@@ -19,6 +19,12 @@ def run(ctx):
     for kc in generic_classes(ctx, names):
         revcomp_symmetry(ctx, kc, "C12.revcomp-symmetry")
     r.floor("C12.revcomp-symmetry", 8)
+    # beyond the ACGT-site quantifier: enzymes with ambiguity letters in their site, which the library also accepts
+    from ..kits import ambiguous_site_enzymes
+    amb = ambiguous_site_enzymes()
+    r.analysed["ambiguous_site_enzymes"] = len(amb)
+    for kc in generic_classes(ctx, amb):
+        revcomp_symmetry(ctx, kc, "C12.revcomp-symmetry.ambiguous-site")
     # every concrete generic (non-literal, non-part) class of the kits as well
     for kc in ctx.inventory:
         if kc.concrete and not kc.is_part and kc.structure_owner is not kc.ci:
